@@ -19,8 +19,9 @@ INVARIANTS = ['OneFinal', 'EndsFinal', 'Truthful', 'FreedAll', 'ReleaseOnce', 'K
 DEVS = ['DevIntakeCancelNoRelease', 'DevExecRaiseNoRelease']
 
 
-def T(uid, fault='none', raises='none', cores=1, soe=False, out=False):
-    return {'uid': uid, 'fault': fault, 'raises': raises, 'cores': cores, 'soe': soe, 'out': out}
+def T(uid, fault='none', raises='none', cores=1, soe=False, out=False, prio=0):
+    return {'uid': uid, 'fault': fault, 'raises': raises, 'cores': cores, 'soe': soe, 'out': out,
+            'prio': prio}
 
 
 # (name, tasks, bulks, cancels, ncores)
@@ -51,6 +52,9 @@ SCENARIOS = [
     # t1, t2 wait behind t0 and are started together (one bulk for the executor); the cancel of
     # t1 reaches the executor before that bulk does
     ('cancel-in-waitbulk', [T('t0', cores=2), T('t1'), T('t2')], [['t0'], ['t1', 't2']], [['t1']], 2),
+    # two priorities in one scheduling pass while the pilot is busy: both wait, each in its own pool
+    ('prio-wait',    [T('t0', cores=2), T('t1', cores=2, prio=1), T('t2')], [['t0'], ['t1', 't2']], [], 2),
+    ('prio-cancel',  [T('t0', cores=2), T('t1', cores=2, prio=1), T('t2')], [['t0'], ['t1', 't2']], [['t1']], 2),
 ]
 
 # directed step sequences (followed by a seeded random completion): interleavings
@@ -245,7 +249,7 @@ def run(chk, tier, seed):
     for tr in traces:
         t2 = {k: tr[k] for k in ('uids', 'spec', 'named', 'ncores')}
         t2['events'] = [{k: e[k] for k in ('ev', 'arg', 'raised', 'killed', 'err', 'client', 'free',
-                                           'pool', 'intasks', 'live')} for e in tr['events']]
+                                           'pool', 'intasks', 'live', 'spawned')} for e in tr['events']]
         for e, e2 in zip(tr['events'], t2['events']):
             e2['rel'] = list(e['uids']) if e['ev'] == 'unsched' else []
         slim.append(t2)
@@ -300,7 +304,7 @@ def replay(chk, obj):
         tr = rig.run(P.scripted(how['script'], random.Random(how['fallback_seed'])))
     t2 = {k: tr[k] for k in ('uids', 'spec', 'named', 'ncores')}
     t2['events'] = [{k: e[k] for k in ('ev', 'arg', 'raised', 'killed', 'err', 'client', 'free',
-                                       'pool', 'intasks', 'live')} for e in tr['events']]
+                                       'pool', 'intasks', 'live', 'spawned')} for e in tr['events']]
     for e, e2 in zip(tr['events'], t2['events']):
         e2['rel'] = list(e['uids']) if e['ev'] == 'unsched' else []
     res, st = tracecheck.validate('Pipeline', 'PipelineTrace', '', [t2])
